@@ -2,6 +2,7 @@ package props
 
 import (
 	"fmt"
+	"github.com/pip-services3-gox/pip-services3-expressions-gox/calculator/variables"
 	"regexp"
 	"strings"
 	"testing"
@@ -61,6 +62,16 @@ func checkC03ExprR(c c03Expr, reached *bool) *evid.Fail {
 				res.Msg = fmt.Sprintf("%q: %s", c.Text, res.Msg)
 				return
 			}
+		}
+		// the same values built from host values (NewVariant / VariantFromObject with every Go type they accept)
+		hv := variables.NewVariableCollection()
+		for i, b := range c.Vars {
+			hv.Add(variables.NewVariable(b.Name, b.V.toHostVariant(i+len(c.Text))))
+		}
+		hvRes, hvErr := calc.EvaluateUsingVariables(hv)
+		if res = exactlyOne("EvaluateUsingVariables with host-built values", hvRes, hvErr); res != nil {
+			res.Msg = fmt.Sprintf("%q with %v: %s", c.Text, c.Vars, res.Msg)
+			return
 		}
 		// variables whose values were cleared (explicit collection and defaults)
 		vc := makeVars(c.Vars)
@@ -401,6 +412,73 @@ func TestC03_RapidExpressions(t *testing.T) {
 		}
 	})
 	requireLabels(t, rec, "reached-evaluation:true", "reached-evaluation:false")
+}
+
+// ---- "malformed expressions ... surface as errors" ----------------------------------------------------
+
+type c03Malformed struct {
+	Toks []etok `json:"toks"`
+}
+
+// checkC03Malformed: a token sequence the reference grammar (C02's) rejects must come back from SetExpression as an
+// error - not as a calculator that then evaluates something else.
+func checkC03Malformed(c c03Malformed) *evid.Fail {
+	if len(c.Toks) == 0 {
+		return nil
+	}
+	if tree, _ := refParse(c.Toks); tree != nil {
+		return nil
+	}
+	src := spellPlain(c.Toks)
+	var err error
+	var v *variants.Variant
+	var eerr error
+	if g := guard(func() {
+		calc := calculator.NewExpressionCalculator()
+		if err = calc.SetExpression(src); err == nil {
+			v, eerr = calc.Evaluate()
+		}
+	}); g != nil {
+		g.Msg = fmt.Sprintf("malformed expression %q: %s", src, g.Msg)
+		return g
+	}
+	if err == nil {
+		return evid.F("malformed-expression-accepted", "%q is not an expression of the grammar, yet SetExpression returned no error (evaluation then gives %s)", src, resultRepr(v, eerr))
+	}
+	return nil
+}
+
+func init() { regReplay("C03.malformed", checkC03Malformed) }
+
+func TestC03_RapidMalformedExpressions(t *testing.T) {
+	rec := evid.New("C03", "TestC03_RapidMalformedExpressions", "C03.malformed", "generated well-formed expressions with 1-3 token-level mutations (insert, delete, replace, duplicate over a 50-token vocabulary); when the reference grammar rejects the sequence, SetExpression must return an error; non-trivial = the reference grammar rejects; distinct by token sequence")
+	defer finish(t, rec)
+	cfg := c02GenCfg()
+	runRapid(t, pick(15000, 120000), 303, func(rt *rapid.T) {
+		tree := genSized(rt, cfg, rapid.SampledFrom([]int{1, 2, 3, 4, 6, 8}).Draw(rt, "size"))
+		toks := printTokens(tree, rapid.IntRange(0, 2).Draw(rt, "style"), nil)
+		for m := rapid.IntRange(1, 3).Draw(rt, "mutations"); m > 0 && len(toks) > 0; m-- {
+			i := rapid.IntRange(0, len(toks)-1).Draw(rt, "at")
+			switch rapid.IntRange(0, 3).Draw(rt, "mut") {
+			case 0:
+				toks = append(toks[:i], append([]etok{rapid.SampledFrom(c02Vocabulary).Draw(rt, "ins")}, toks[i:]...)...)
+			case 1:
+				toks = append(append([]etok{}, toks[:i]...), toks[i+1:]...)
+			case 2:
+				toks = append([]etok{}, toks...)
+				toks[i] = rapid.SampledFrom(c02Vocabulary).Draw(rt, "rep")
+			default:
+				toks = append(toks[:i+1], append([]etok{toks[i]}, toks[i+1:]...)...)
+			}
+		}
+		c := c03Malformed{toks}
+		tree2, _ := refParse(toks)
+		rec.Case(jsonStr(c), tree2 == nil && len(toks) > 0, func() interface{} { return c }, fmt.Sprintf("rejected-by-reference:%v", tree2 == nil))
+		if f := checkC03Malformed(c); f != nil && rec.Fail(f, c) {
+			rt.Fatalf("%v", f)
+		}
+	})
+	requireLabels(t, rec, "rejected-by-reference:true")
 }
 
 var c03CloserRe = regexp.MustCompile(`\{\{\{?\s*/[^{}]*\}\}\}?`)
